@@ -611,7 +611,29 @@ pub fn run(ctx: &Ctx) {
     let mut jobs: Vec<(Site, u64)> = Vec::new();
     let mut above = 0u64;
     for s in SITES {
-        let (ok, bad) = s.values(!ctx.quick());
+        let (mut ok, mut bad) = s.values(!ctx.quick());
+        if !ctx.quick() && !matches!(s, Site::PkgLengthRealBuffer | Site::SlitLocalities) {
+            // thorough: every value in a band around the maximum, and a spread of values beyond it
+            let m = s.max();
+            ok.extend((m.saturating_sub(6)..=m).filter(|v| !ok.contains(v)).collect::<Vec<_>>());
+            let cheap = m < (1 << 20);
+            // (sites whose every value costs tens of thousands of adds get a narrower band)
+            let heavy = (60_000..(1 << 20)).contains(&m);
+            let mut extra: Vec<u64> = (1..=if heavy { 8u64 } else { 24 }).filter_map(|d| m.checked_add(d)).collect();
+            if cheap && !heavy {
+                extra.extend([m + 255, m + 256, m + 257, 2 * m, 2 * m + 1, 3 * m + 7, 4 * m + 3, 100_000, 131_071, 131_072, 200_000]);
+            }
+            // sites whose parameter is a u8 / whose value is bounded by the operand type
+            let cap = match s {
+                Site::MethodArgs | Site::MethodArgsSerialized | Site::ArgIndex | Site::LocalIndex => 255,
+                Site::AddrRange16 | Site::AddrRange32 | Site::AddrRange64 => m + 1,
+                _ => u64::MAX,
+            };
+            extra.retain(|v| *v > m && *v <= cap && !bad.contains(v));
+            extra.sort();
+            extra.dedup();
+            bad.extend(extra);
+        }
         for v in ok {
             jobs.push((s, v));
         }
